@@ -33,14 +33,19 @@ LEVEL_NOTE = ("mostly configuration/input space; the simulator contributes the s
 
 
 def generate(tape, tier="quick"):
-    a = gen_structured(tape, max_dim=3, max_len=4)
-    rel = tape.weighted([("relayout", 7), ("same", 2), ("other_loc", 1), ("perturbed", 2), ("swapped", 1)])
+    a = gen_structured(tape, max_dim=3, max_len=4, big_coords=True)
+    rel = tape.weighted([("relayout", 7), ("same", 2), ("other_loc", 1), ("perturbed", 2), ("swapped", 1), ("other_crs", 1)])
+    if tape.chance(1, 5):
+        a["crs"] = "EPSG:32632"       # both grids name the same coordinate reference system (unless other_crs)
     if rel == "same":
         b = dict(a)
     else:
         b = relayout(tape, a)
         if rel == "other_loc":
             b["loc"] = "points" if b["loc"] == "cells" else "cells"
+        elif rel == "other_crs":
+            # the same numbers in another - or in no - coordinate reference system are other locations
+            b["crs"] = {None: "EPSG:32632", "EPSG:32632": tape.choice([None, "EPSG:25832"])}[a.get("crs")]
         elif rel == "swapped":
             # the same number of data locations, the extents of two axes exchanged (3 x 4 cells against 4 x 3)
             if len(b["dims"]) >= 2 and b["dims"][0] != b["dims"][-1]:
@@ -69,6 +74,9 @@ def generate(tape, tier="quick"):
         sc["mask_modes"] = [tape.weighted([("rule", 3), ("nomask", 2), ("allfalse", 1)]) for _ in range(3)]
         if False:
             pass
+    if not sc["masked"] and tape.chance(1, 4):
+        # the producer hands its data over as a flat vector in the grid's own flattening order (data_points order)
+        sc["flat"] = True
     if not sc["static"] and tape.chance(1, 3):
         # the consumer lags: everything is published first, then every publication is pulled (several pulls
         # between two notifications, each served from another retained publication)
@@ -106,7 +114,7 @@ def execute(sc):
         if np.shape(can) != exp.shape or not np.allclose(can, exp, atol=1e-9):
             v("canon-order", "xyz", f"canonical data is not indexed x,y,z along increasing coordinates for grid {sc['a']}")
     # ---- compatibility relation
-    same_set = ma.location_set() == mb.location_set() and ma.dim == mb.dim
+    same_set = ma.location_set() == mb.location_set() and ma.dim == mb.dim and sc["a"].get("crs") == sc["b"].get("crs")
     degenerate = all(len(a) == 1 for a in ma.axes)
     try:
         comp = bool(ga.compatible_with(gb))
@@ -165,6 +173,8 @@ def execute(sc):
             payload = np.ma.array(data.copy(), mask=np.zeros(data.shape, bool))
         else:
             payload = data.copy()
+            if sc.get("flat"):
+                payload = payload.reshape(-1, order=ma.order)
         try:
             if what == "push":
                 if not static or k == 0:
